@@ -245,6 +245,56 @@ void states(Mon& M, Rng& rng, int many)
    for (auto n : col.nodes) M.node(*n);
 }
 
+// Iterators are (sequence, position) pairs: the ones taken before a sequence grew still are what begin(), position(i) and
+// the old end() were defined as -- equal to the iterators of those positions taken afterwards, able to walk to the new end()
+// and to read the elements added since.
+template<class T, class Grow>
+void across_growth(Mon& M, const char* owner, const Sequence<T>& s, int before, int added, Grow grow)
+{
+   auto& C = M.C;
+   for (int i = 0; i < before; ++i) grow();
+   const std::size_t n0 = s.size();
+   auto b0 = s.begin(); auto e0 = s.end(); auto m0 = s.position(n0 / 2);
+   if (n0 > 0) (void)&*b0;                      // an iterator that had been dereferenced
+   for (int i = 0; i < added; ++i) grow();
+   const std::size_t n1 = s.size();
+   C.count("iterators_compared_across_growth");
+   C.eval(hash_mix(hash_bytes(owner), hash_mix(n0, n1)));
+   auto bad = [&](const char* what, const std::string& msg) { M.bad(std::string("sequence:across-growth:") + what + ":" + owner, msg + " (size " + std::to_string(n0) + " -> " + std::to_string(n1) + ")"); };
+   if (n1 != n0 + std::size_t(added)) { bad("size", "size() did not grow by the number of elements added"); return; }
+   if (!(b0 == s.begin()) || b0 != s.position(0)) bad("begin", "begin() taken before the sequence grew is not begin() / position(0) any more");
+   if (!(e0 == s.position(n0)) || (e0 == s.end()) != (added == 0)) bad("end", "end() taken before the sequence grew is not position(old size)");
+   if (!(m0 == s.position(n0 / 2))) bad("position", "position(i) taken before the sequence grew is not position(i) any more");
+   std::size_t steps = 0; auto it = b0;
+   try {
+      while (it != s.end() && steps <= n1 + 2) { if (&*it != &*s.position(steps)) { bad("walk", "walking on from an iterator taken before the growth reaches another element than position(i)"); break; } ++it; ++steps; }
+      if (steps != n1) bad("walk-count", "walking from the begin() taken before the growth to the current end() visits " + std::to_string(steps) + " elements");
+      if (added > 0 && &*e0 != &*s.position(n0)) bad("old-end-element", "the old end() does not designate the first element added");
+      if (std::size_t(std::distance(b0, s.end())) != n1) bad("distance", "distance(old begin, end) != size()");
+   } catch (const std::exception& e) { bad("raised", std::string("reading an element that exists through an iterator taken before the growth raised ") + e.what()); }
+}
+
+void growth(Mon& M, Rng& rng)
+{
+   impl::Lexicon lex; impl::Translation_unit unit { lex };
+   Pools P(lex, unit, rng);
+   auto& greg = *unit.global_region();
+   for (int before : { 0, 1, 2, 7 + int(rng.below(40)) }) for (int added : { 1, 2, 1 + int(rng.below(30)) }) {
+      int k = 0;
+      auto id = [&]() -> const Identifier& { return lex.get_identifier(widen("g" + std::to_string(k++))); };
+      { auto* ns = lex.make_namespace(greg); across_growth(M, "Namespace.members", ns->scope().elements(), before, added, [&] { ns->declare_var(id(), P.T()); }); }
+      { auto* cls = lex.make_class(greg); across_growth(M, "Class.members", cls->scope().elements(), before, added, [&] { cls->declare_field(id(), P.T()); }); }
+      { auto* cls = lex.make_class(greg); across_growth(M, "Class.bases", cls->bases(), before, added, [&] { cls->declare_base(*P.a_class); }); }
+      { auto* en = lex.make_enum(greg, Enum::Kind::Legacy); across_growth(M, "Enum.members", en->members(), before, added, [&] { en->add_member(id()); }); }
+      { auto* b = lex.make_block(greg); across_growth(M, "Block.body", b->body(), before, added, [&] { b->add_stmt(*rng.pick(P.stmts)); }); }
+      { auto* b = lex.make_block(greg); across_growth(M, "Block.handlers", b->handlers(), before, added, [&] { b->new_handler(id(), P.T()); }); }
+      { auto* xl = lex.make_expr_list(); across_growth(M, "Expr_list", xl->operand(), before, added, [&] { xl->push_back(&P.X()); }); }
+      { auto* map = lex.make_mapping(greg, Mapping_level{ 1 }); across_growth(M, "Parameter_list", map->parameters().elements(), before, added, [&] { map->param(id(), P.T()); }); }
+      { auto* map = lex.make_mapping(greg, Mapping_level{ 1 }); across_growth(M, "Parameter_list.type", static_cast<const Product&>(map->parameters().type()).operand(), before, added, [&] { map->param(id(), P.T()); }); }
+      { auto* sub = greg.make_subregion(); across_growth(M, "Region.bindings", sub->bindings().elements(), before, added, [&] { sub->declare_var(id(), P.T()); }); }
+   }
+}
+
 // equality is an equivalence that holds exactly for equal spellings
 void equalities(Mon& M, Rng& rng)
 {
@@ -358,6 +408,7 @@ static void body(Ctx& C)
       }
       states(M, rng, it % 3 == 0 ? 300 : 5 + int(rng.below(60)));
       equalities(M, rng);
+      growth(M, rng);
    }
    for (auto k : { "Block:no-handler", "Block:one-handler", "Block:many-handlers", "Product", "Sum", "Expr_list", "Scope", "Parameter_list", "Region", "Namespace", "Class", "Union", "Enum",
                    "Closure", "Template", "Parameter:with-default", "Parameter:no-default", "Alias", "Field", "Bitfield", "String", "Base_type",
@@ -367,7 +418,7 @@ static void body(Ctx& C)
    std::string list = "["; for (auto& k : M.kinds_seen) { if (list.size() > 1) list += ","; list += jstr(k); } C.extra("kinds_and_states", list + "]");
    C.sample(J().s("case", "Block with 3 handlers: try_block() vs handlers().size() > 0; body() vs region().body()").str());
    C.sample(J().s("case", "Linkage(\"C\") == Linkage(get_string(\"C\")) and != Linkage(\"c\")").str());
-   C.need("sequence_checks"); C.need("derived_checks"); C.need("equality_pairs"); C.need("iterator_walk_moves"); C.need("nodes_checked"); C.need("library_made_basic_specifiers", 17); C.need("library_made_basic_qualifiers", 3);
+   C.need("sequence_checks"); C.need("derived_checks"); C.need("equality_pairs"); C.need("iterator_walk_moves"); C.need("iterators_compared_across_growth"); C.need("nodes_checked"); C.need("library_made_basic_specifiers", 17); C.need("library_made_basic_qualifiers", 3);
 }
 
 int main(int argc, char** argv) { return guarded_main(argc, argv, body); }
